@@ -40,36 +40,40 @@ def analyse_from_str(F, f, rep, R, module):
     fns = module_fns(F, f, module)
     rep.fn_seen(*fns)
     n_nomatch = 0
+    info["numeric_sites"] = []
     for g in fns:
         for bi, t in g.calls():
             if not mir.call_matches(t, (TRYB,)): continue
-            names, final = mir.chain(g, t[2][0], stop=(NAME, "regex::Regex::captures"))
-            cs = [n for n, _, _ in names]
             site = "%s bb%d line %s" % (g.where(), bi, g.blocks[bi]["line"])
-            if any("regex::Regex::captures" in c for c in cs) and all(("ok_or" in c or "regex::Regex::captures" in c) for c in cs):
+            sl = back_slice(F, g, t[2][0])
+            cs = sorted({mir.callee(t2) or "?" for _, _, t2 in sl})
+            parses = [(h, b2, t2) for h, b2, t2 in sl if mir.call_matches(t2, (PARSE,))]
+            caps = [x for x in sl if mir.call_matches(x[2], ("regex::Regex::captures",))]
+            names = set()
+            for h, b2, t2 in sl:
+                if mir.call_matches(t2, (NAME,)) and len(t2[2]) > 1:
+                    v = mir.const_arg(h, t2[2][1])
+                    names.add(v if isinstance(v, str) else "?")
+            unknown = [c for c in cs if not any(pl in c for pl in PLUMBING) and not (c in F.fns)]
+            short = "/".join(sorted(c.rsplit("::", 1)[-1] for c in cs))[:80]
+            if unknown:
+                rep.bad(R + ".3", "extra-rejection:" + short, "an Err exit of the parser depends on %s, which is neither the regex match nor a numeric parse of a capture group" % unknown, site)
+                continue
+            if caps and not parses:
                 n_nomatch += 1
                 rep.ok(R + ".3", "rejection: no match", sample=cs, nontrivial_key="nomatch%s%d" % (g.path, bi))
                 continue
-            if any(PARSE in c for c in cs) and cs and NAME in cs[-1]:
-                # numeric parse of a capture group, error propagated
-                pt = [t2 for n, _, t2 in names if PARSE in n][0]
-                ty = (pt[1].get("targs") or ["?"])[0]
-                gname = mir.const_of(names[-1][2][2][1]) if len(names[-1][2][2]) > 1 else None
-                if gname is None:
-                    o2 = mir.trace_op(g, names[-1][2][2][1])
-                    gname = o2[0].data.get("v") if o2 and o2[0].kind == "const" else None
-                mids = [c for c in cs[:-1] if PARSE not in c]
-                okmid = all(any(x in c for x in ("map_err", "as_str", "Option::<T>::unwrap", "Option::<T>::expect")) for c in mids)
-                if ty in INT_TYPES and gname and okmid:
-                    info["checked_groups"].add(gname)
-                    info["parse_sites"].append((gname, ty, site))
-                    rep.ok(R + ".3", "rejection: numeric parse of group %s as %s" % (gname, ty), sample=cs, nontrivial_key="num" + gname)
-                    continue
-            rep.bad(R + ".3", "extra-rejection:%s" % "/".join(c.rsplit("::", 1)[-1] for c in cs[:4]),
-                    "an Err exit of the parser that is neither 'no regex match' nor 'numeric parse failure of a capture group' (chain %s)" % cs, site)
+            tys = {(t2[1].get("targs") or ["?"])[0] for _, _, t2 in parses}
+            if parses and names and "?" not in names and tys <= set(INT_TYPES) and not caps:
+                rep.ok(R + ".3", "rejection: numeric parse (%s) of group(s) %s" % ("/".join(sorted(tys)), sorted(names)), sample=cs, nontrivial_key="num" + ",".join(sorted(names)))
+                info["numeric_sites"].append({"fn": g, "bi": bi, "groups": sorted(names), "types": sorted(tys), "site": site})
+                for nm in names: info["parse_sites"].append((nm, sorted(tys)[0], site))
+                continue
+            rep.bad(R + ".3", "extra-rejection:" + short,
+                    "an Err exit of the parser that is neither 'no regex match' nor 'numeric parse failure of a capture group' (calls in its slice: %s)" % cs, site)
         # direct Err construction
         for bi, si, s in g.stmts():
-            if s[0] == "=" and s[1][0] == 0 and s[2][0] == "agg" and s[2][1].get("variant") == "Err" and g.d.get("ret", "").startswith("std::result::Result"):
+            if s[0] == "=" and s[1][0] == 0 and s[2][0] == "agg" and s[2][1].get("variant") == "Err" and g.d.get("ret", "").startswith("std::result::Result<") and g.kind != "closure":
                 rep.bad(R + ".3", "extra-rejection:direct-Err:%s" % g.path.rsplit("::", 1)[-1],
                         "the parser constructs Err directly (an accept/reject decision outside the regex)", "%s bb%d" % (g.where(), bi))
     rep.floor(R + ".3", "no-match rejection site", n_nomatch, 1)
@@ -85,6 +89,124 @@ def analyse_from_str(F, f, rep, R, module):
     constant_fallbacks(F, rep, R + ".4", fns)
     info["fns"] = fns
     return info
+
+PLUMBING = ("Option::<T>::map", "Option::<std::result::Result<T, E>>::transpose", "Option::<T>::or_else", "Option::<T>::and_then",
+            "Option::<T>::ok_or", "Result::<T, E>::map_err", "regex::Match::<'h>::as_str", "core::str::<impl str>::split",
+            "Iterator::map", "Iterator::collect", "Option::<T>::unwrap", "Option::<T>::expect", "ops::Deref>::deref",
+            "regex::Regex::captures", NAME, PARSE, "IntoIterator>::into_iter", "ops::function::Fn", "FnMut", "FnOnce", "Result::<T, E>::map",
+            "Option::<T>::is_some", "Option::<T>::as_ref")
+NO_DESCEND = ("map_err", "ok_or_else", "ok_or", "unwrap_or_else")
+
+def back_slice(F, fn, op, depth=0, seen=None):
+    """call sites (fn, bi, terminator) contributing to the value of `op`: follows every argument backwards,
+    descends into closures passed as arguments (except error-constructing closures) and into local closures that are called."""
+    if seen is None: seen = set()
+    out = []
+    if depth > 12: return out
+    for o in mir.trace_op(fn, op, transparent=()):
+        if o.kind == "call":
+            k = (o.fn.path, o.data)
+            if k in seen: continue
+            seen.add(k)
+            t = o.fn.blocks[o.data]["t"]
+            out.append((o.fn, o.data, t))
+            cname = (t[1].get("decl") or "").rsplit("::", 1)[-1]
+            for i, a in enumerate(t[2]):
+                if i >= 1 and cname in NO_DESCEND: continue
+                if i == 0 and mir.call_matches(t, (NAME,)): continue   # the Captures object itself
+                out += back_slice(F, o.fn, a, depth + 1, seen)
+            # a call of a local closure / function: include what its result depends on
+            tgt = F.fn(mir.callee(t) or "")
+            if tgt is not None and (tgt.path, "ret") not in seen:
+                seen.add((tgt.path, "ret"))
+                out += back_slice(F, tgt, ["cp", [0]], depth + 1, seen)
+        elif o.kind == "upvar":
+            r = mir.resolve_upvar(F, o)
+            if r is not None and (o.fn.path, "up", str(o.data)) not in seen:
+                seen.add((o.fn.path, "up", str(o.data)))
+                out += back_slice(F, r[0], r[1], depth + 1, seen)
+        elif o.kind == "agg":
+            rv = mir.rv_at(o.fn, *o.data)
+            if rv[1].get("k") == "closure":
+                c = F.fn(rv[1]["path"])
+                if c is not None and (c.path, "ret") not in seen:
+                    seen.add((c.path, "ret"))
+                    out += back_slice(F, c, ["cp", [0]], depth + 1, seen)
+            else:
+                for a in rv[2]:
+                    out += back_slice(F, o.fn, a, depth + 1, seen)
+    return out
+
+def group_relations(groups):
+    """groups: rxlang 'groups' list -> (ancestors(g), implied(h, g), exclusive(a, b))"""
+    by = {g["name"]: g for g in groups}
+    def anc(g):
+        out = []; cur = by.get(g, {}).get("parent")
+        while cur:
+            out.append(cur); cur = by.get(cur, {}).get("parent")
+        return out
+    def mand_up(h):
+        """ancestors (and 'ROOT') that force h to participate"""
+        out = set(); cur = h
+        while cur in by and by[cur]["mandatory"]:
+            parent = by[cur]["parent"]
+            out.add(parent or "ROOT")
+            if not parent: break
+            cur = parent
+        return out
+    def implied(h, g):
+        scope = set(anc(g)) | {g, "ROOT"}
+        return h in scope or bool(mand_up(h) & scope)
+    def exclusive(a, b):
+        pa = {x[0]: x[1] for x in by[a]["alt_path"]}
+        pb = {x[0]: x[1] for x in by[b]["alt_path"]}
+        return any(k in pb and pb[k] != v for k, v in pa.items())
+    return anc, implied, exclusive
+
+def checked_groups(F, info, groups, rep, R):
+    """Groups whose text is parsed as an integer with the failure propagated on EVERY path on which the group matched:
+    only for those may the character classes be intersected with ASCII digits when computing the effective language."""
+    if not groups: return set()
+    anc, implied, exclusive = group_relations(groups)
+    names_known = {g["name"] for g in groups}
+    out = set()
+    for ns in info["numeric_sites"]:
+        g = ns["fn"]; bi = ns["bi"]; G = ns["groups"]
+        if g.kind == "closure" or any(x not in names_known for x in G): continue
+        if any(not exclusive(a, b) for i, a in enumerate(G) for b in G[i + 1:]): continue
+        ok = True; why = []
+        for desc, pol, d in mir.guards_of(g, bi):
+            h = guard_group(g, desc, pol)
+            if h == "TRY": continue
+            if h is None or h not in names_known or not all(implied(h, x) for x in G):
+                ok = False; why.append(str(desc[:2]))
+        if ok:
+            out |= set(G)
+            rep.ok(R + ".1", "groups %s are integer-parsed with the error propagated on every path where they match (guards implied by the regex structure)" % G, nontrivial_key="checked" + ",".join(G))
+    return out
+
+def guard_group(fn, desc, pol):
+    """a dominating condition that is `captures.name(h)` is Some -> h; a `?` continue edge -> 'TRY'; else None"""
+    if desc[0] == "discr":
+        ty = desc[2]
+        if ty.startswith("std::ops::ControlFlow<"): return "TRY"
+        if ty.startswith("std::option::Option<") and isinstance(pol, tuple) and pol == ("in", frozenset({"Some"})):
+            for o in mir.trace_place(fn, desc[1], transparent=()):
+                if o.kind == "call":
+                    t = fn.blocks[o.data]["t"]
+                    if mir.call_matches(t, (NAME,)):
+                        v = mir.const_arg(fn, t[2][1])
+                        return v if isinstance(v, str) else None
+        return None
+    if desc[0] == "call" and desc[1] and "Option::<T>::is_some" in desc[1] and pol is True:
+        t = desc[2]
+        for o in mir.trace_op(fn, t[2][0], transparent=()):
+            if o.kind == "call":
+                t2 = fn.blocks[o.data]["t"]
+                if mir.call_matches(t2, (NAME,)):
+                    v = mir.const_arg(fn, t2[2][1])
+                    return v if isinstance(v, str) else None
+    return None
 
 def constant_fallbacks(F, rep, rule, fns):
     n = 0
